@@ -46,7 +46,8 @@ POSITIONS = ['chain:S', 'chain:M', 'chain:K', 'tee:S', 'tee:K1', 'rejoin:S', 're
 INJECTIONS = [('normalize', None, 'raise'), ('init', None, 'raise'), ('init', None, 'exit'), ('setup', None, 'raise'), ('setup', None, 'exit'), ('setup', None, 'exit_exc'),
               ('process', 0, 'exit'), ('process', 1, 'exit'), ('process', 4, 'exit'), ('process', 1, 'exit_exc'), ('process', 4, 'raise'), ('process', 1, 'stop_evt'),
               ('send', 2, 'raise'), ('shutdown', 2, 'raise'), ('shutdown', 2, 'exit'), ('fini', 2, 'raise'), ('outside', None, 'stop_evt'),
-              ('shutdown', 2, 'exit_exc')]     # an error exit() when the stop event is already set (the run was ending cleanly)
+              ('shutdown', 2, 'exit_exc'),
+              ('mqinit', None, 'raise')]     # init() fails inside the message queue's constructor (an invalid combination: balanced sources with a '?' source), after some sockets exist     # an error exit() when the stop event is already set (the run was ending cleanly)
 
 
 def build_nodes(case):
@@ -63,6 +64,9 @@ def build_nodes(case):
             nd['in_handler'] = True
         if case.get('loop_exc') is False and nid != x:
             nd['loop_exc'] = False      # the neighbours log and swallow exceptions of their processing loop (LOOP_EXC=false); an obeyed exit is not one of those
+        if nid == x and case.get('where') == 'mqinit' and srcs:
+            nd['cfg'] = {**(nd.get('cfg') or {}), 'sources_balance': True}
+            nd['sources'] = [s_ + '?' for s_ in srcs]
         if nid == x and case.get('exit_after') is not None:
             nd['cfg'] = {'exit_after': case['exit_after']}
             if case.get('starved'):     # nobody takes its frames: every send runs into outputs_timeout and the frames are dropped
@@ -117,6 +121,9 @@ def run_case(case):
                 raise Boom('boom')
             return
         if obj.config.id != x:
+            return
+        if at == 'init_pre' and where == 'mqinit':
+            state['fired'] = p.world.now      # init() is about to fail on its own
             return
         if at == 'process':
             if where == 'process' and kk == k:
@@ -190,7 +197,7 @@ def run_case(case):
     # before fini(); nothing is announced when init did not complete)
     if case.get('exit_after') is not None:
         kind, announce = 'clean', 'clean'
-    elif where in ('normalize', 'init'):
+    elif where in ('normalize', 'init', 'mqinit'):
         kind, announce = ('error' if what == 'raise' else 'clean'), None
     elif where == 'fini':
         kind, announce = 'error', 'clean'
@@ -207,7 +214,7 @@ def run_case(case):
         return bad(f'{x}: stop event not set after run() ended', f'stop-evt-not-set:{where}', classes)
     if kind == 'clean' and end['how'] != 'returned':
         return bad(f'{x}: clean exit ({where} {what}) but run() raised {end["exc"]}', f'clean-exit-raised:{where}:{what}:{end.get("type")}', classes)
-    if kind == 'error' and not (end['how'] == 'raised' and end.get('type') == 'Boom'):
+    if kind == 'error' and not (end['how'] == 'raised' and end.get('type') == ('ValueError' if where == 'mqinit' else 'Boom')):
         return bad(f'{x}: error exit ({where} {what}) but run() {"returned normally" if end["how"] == "returned" else "raised " + str(end["exc"])}',
                    f'error-exit-not-raised:{where}:{what}:{end.get("type") if end["how"] == "raised" else "returned"}', classes)
     # ---- exit_after deadline -----------------------------------------------------------------------------------------------------
@@ -314,6 +321,8 @@ FIXED_NET = {'cls': 'lan', 'delays': [[50, 2000], [700], [5000, 50]], 'conn': [5
 def matrix_cases(tier):
     for pos in POSITIONS:
         for (where, k, what) in INJECTIONS:
+            if where == 'mqinit' and topology(pos)[1] == 'S':
+                continue        # a source has no sources to mis-configure
             for prop, obey in itertools.product(POLICIES, POLICIES):
                 yield {'pos': pos, 'where': where, 'k': k, 'what': what, 'policies': {'*': [prop, obey]}, 'net': FIXED_NET}
     # the same, with every run() called from inside an exception handler of its caller (clean ends only: that is where "is an exception in
@@ -363,6 +372,8 @@ def case_strategy(draw, tier):
     pos = draw(st.sampled_from(POSITIONS))
     where, k, what = draw(st.sampled_from(INJECTIONS))
     topo, x = topology(pos)
+    if where == 'mqinit' and x == 'S':
+        where, k, what = 'init', None, 'raise'
     pols = {nid: [draw(st.sampled_from(POLICIES)), draw(st.sampled_from(POLICIES))] for nid, _ in topo}
     pols['*'] = ['clean', 'all']
     return {'pos': pos, 'where': where, 'k': k, 'what': what, 'policies': pols, 'work': draw(st.sampled_from([5, 20, 60])),
